@@ -57,6 +57,10 @@ func runC01(env *lib.Env, rep *lib.Report) {
 	// flushed after every statement: contents do not depend on which pages happen to be resident
 	cfgs = append(cfgs, histCfg{Name: "real/catalog-split/c0+c7/cache6", Opt: real, Seed: "catalog-split", CacheAfterSeed: 6,
 		Alpha: alphaOpt{Tables: []string{"c0", "c7"}, Inserts: []int{1, 9}, Updates: true, Deletes: true, FewDeletes: true}, Depth: d, FinalReopen: true})
+	// ... and a table of eight leaves under the same small cache: a statement over all of it has more pages to change than
+	// the cache holds - it is refused for lack of room (the execution ends there) or it does all of its work
+	cfgs = append(cfgs, histCfg{Name: "real/t1x30/cache6", Opt: real, Seed: "t1x30", CacheAfterSeed: 6,
+		Alpha: alphaOpt{Tables: []string{"t1"}, Inserts: []int{1, 9}, Updates: true, Deletes: true}, Depth: d, FinalReopen: true})
 	// deeper, with a two-table alphabet, from the empty database
 	cfgs = append(cfgs, histCfg{Name: "real/empty/deep", Opt: real, Seed: "empty", Alpha: twoAlpha, Depth: d + 1, FinalReopen: true})
 	rep.Bounds["depth"] = d
